@@ -24,7 +24,8 @@ OUTSIDE = ["module graphs are concrete files", "more than 4 symbols per module i
            "importer programs longer than the bound"]
 REACH = {"bind", "graphs"}
 
-POOL = ["a", "b_", "_p", "__q", "Sub", "z9"]     # Sub is bound to a module object
+POOL = ["a", "b_", "_p", "__q", "Sub", "z9", "obj", "lst"]     # Sub is bound to a module object, obj to a plain
+#                                                                object (public data like any other), lst to a list
 FORMS = ["qualified", "as", "unqualified", "import"]
 
 IMPORTS = [
@@ -47,7 +48,11 @@ def cells(tier, seed):
     out = []
     for form in FORMS:
         for n in range(0, b["module_symbols"] + 1):
-            out.append({"k": "bind", "form": form, "n": n})
+            if n >= 3:          # split by the first symbol (parallelism only; the union is the same set of paths)
+                for s0 in range(len(POOL)):
+                    out.append({"k": "bind", "form": form, "n": n, "s0": s0})
+            else:
+                out.append({"k": "bind", "form": form, "n": n})
     for first in range(len(IMPORTS)):
         out.append({"k": "graphs", "first": first, "n": b["import_statements"]})
     for first in range(len(RE_FIRST)):
@@ -107,12 +112,18 @@ def run_bind(ctx, cell):
     modenv = base.newEnv()
     names = []
     for i in range(n):
-        nm = POOL[ctx.choice("s%d" % i, len(POOL))]
+        nm = POOL[cell["s0"]] if (i == 0 and "s0" in cell) else POOL[ctx.choice("s%d" % i, len(POOL))]
         names.append(nm)
         if nm == "Sub":
             o = V.ValueObject()
             o.isModule = True
             modenv.put(nm, o)
+        elif nm == "obj":
+            o = V.ValueObject()
+            o.addItem("hits", vint(0))
+            modenv.put(nm, o)
+        elif nm == "lst":
+            modenv.put(nm, V.ValueList())
         else:
             modenv.put(nm, vint(100 + i))
     base.modules["M"] = modenv
